@@ -181,7 +181,39 @@ func runC19(c *ctx) {
 			}
 		}
 	}
-	c.Required = []string{"parts=2", "parts=3", "parts=4", "shared-variable-names", "ellipses-in-several-parts", "with-warnings", "header-kind-pairs"}
+	// a message with exactly n variables, then messages that reuse each of its names in every kind of place
+	for n := 1; n <= 20; n++ {
+		var sb strings.Builder
+		sb.WriteString("S1F1 W H->E <L")
+		for i := 0; i < n; i++ {
+			switch i % 4 {
+			case 0:
+				fmt.Fprintf(&sb, " <U1 n%d>", i)
+			case 1:
+				fmt.Fprintf(&sb, " n%d", i)
+			case 2:
+				fmt.Fprintf(&sb, " <A n%d>", i)
+			default:
+				fmt.Fprintf(&sb, " <BOOLEAN T n%d>", i)
+			}
+		}
+		sb.WriteString("> .")
+		first := sb.String()
+		for i := 0; i < n; i += 1 + n/6 {
+			name := fmt.Sprintf("n%d", i)
+			for _, second := range []string{
+				"S1F2 H<-E <L " + name + " <U1 w>> .", "S1F2 H<-E <U2 " + name + "> .", "S1F2 H<-E <A[1..4] " + name + "> .",
+				"S1F2 H<-E <L <L <F4 " + name + ">> ...> .", "S1F2 <B " + name + " 1> .",
+			} {
+				for _, sep := range []string{"", "\n", " // c\n"} {
+					c.Class("n-variables-then-reuse")
+					c19Eval(c, c19Case{Parts: []string{first, second}, Seps: []string{sep, ""}})
+					c19Eval(c, c19Case{Parts: []string{first, "S9F9 W .", second}, Seps: []string{sep, sep, ""}})
+				}
+			}
+		}
+	}
+	c.Required = []string{"n-variables-then-reuse", "parts=2", "parts=3", "parts=4", "shared-variable-names", "ellipses-in-several-parts", "with-warnings", "header-kind-pairs"}
 }
 
 func replayC19(c *ctx, raw json.RawMessage) {
